@@ -492,6 +492,12 @@ def _williamson_verdict(ctx, V, Db, S, nu, tol, tol_s):
 @st.composite
 def bm_case(draw, nmax):
     n = draw(st.integers(1, nmax))
+    if draw(st.integers(0, 9)) == 0:
+        # weak squeezers directly on the inputs, then an interferometer: S^T S is diagonal and within 1e-5 of the identity, S is NOT passive
+        r = np.array([draw(st.sampled_from([1e-6, 4e-6, 2e-6, 1e-7, 1e-5, 8e-6])) for _ in range(n)])
+        O1 = gen.orth_symplectic(draw(gen.unitary(n))[1])
+        S = O1 @ np.diag(np.concatenate([np.exp(-r), np.exp(r)]))
+        return {"n": n, "kind": "tiny_r", "r": [float(x) for x in r], "S": spec.enc_matrix(S)}
     if draw(st.integers(0, 5)) == 0 and n >= 2:
         kind = draw(st.sampled_from(["near_degenerate", "tiny_r"]))
         r = np.array(sorted(np.abs(draw(gen.squeezing_list(n, 0.8)))))
@@ -502,6 +508,11 @@ def bm_case(draw, nmax):
             r[0] = draw(st.sampled_from([1e-11, 1e-10, 1e-9, 1e-8, 1e-6]))
         O1 = gen.orth_symplectic(draw(gen.unitary(n))[1])
         O2 = gen.orth_symplectic(draw(gen.unitary(n))[1])
+        if kind == "tiny_r" and draw(st.booleans()):
+            # weak squeezers directly on the inputs, then an interferometer: S^T S is diagonal and within 1e-5 of the identity
+            r = np.array([draw(st.sampled_from([1e-6, 4e-6, 2e-6, 1e-7, 1e-5])) * draw(st.sampled_from([1, -1])) for _ in range(n)])
+            r = np.abs(r)
+            O2 = np.eye(2 * n)
         S = O1 @ np.diag(np.concatenate([np.exp(-r), np.exp(r)])) @ O2
         r = [float(x) for x in r]
     else:
@@ -561,7 +572,9 @@ def _bm_verdict(ctx, S, O1, Z, O2, sv, tol, passive_exact=False):
                             "O1/O2 orthogonal (%.2g), O1 Z O2 == S (%.2g) but |O Omega O^T - Omega| = %.3g; singular value 1 has "
                             "multiplicity %d of %d" % (e_o, e_rec, e_s, unit, 2 * n))
     if max(e_rec / sc, e_o, e_d / sc, e_s) > tol:
-        if neardeg:
+        # open finding N3 is about symplecticity only: the factors stay orthogonal and their product stays S.  Anything else wrong with a
+        # near-degenerate spectrum is NOT that finding
+        if neardeg and e_rec <= tol * sc and e_o <= tol and e_d <= tol * sc:
             return ctx.fail("bloch_messiah.near_degenerate_cluster_split_by_rounding",
                             "reconstruction %.3g orthogonality %.3g symplecticity %.3g diagonality %.3g; singular values %s contain a "
                             "pair closer than 1e-5 that np.round(., 9) tells apart" % (e_rec, e_o, e_s, e_d, top.tolist()))
@@ -1089,9 +1102,11 @@ def invalid_case(draw, nmax):
             M = V[:, :-1]
         elif mode == "odd":
             M = V[:-1, :-1]
-        elif mode == "notposdef":  # flip the sign of one eigenvalue: symmetric, indefinite
+        elif mode == "notposdef":  # flip the sign of one or more eigenvalues (even counts keep det > 0): symmetric, indefinite
             w, Q = np.linalg.eigh(V)
-            w[draw(st.integers(0, 2 * n - 1))] *= -draw(st.sampled_from([1.0, 0.1, 1e-3]))
+            k_neg = draw(st.sampled_from([1, 2, 2, 3, 2 * n]))
+            for i_ in list(draw(st.permutations(list(range(2 * n)))))[:min(k_neg, 2 * n)]:
+                w[i_] *= -draw(st.sampled_from([1.0, 0.1, 1e-3]))
             M = (Q * w) @ Q.T
             M = (M + M.T) / 2
         else:
